@@ -911,7 +911,9 @@ def diff_helper(func, arr, *args, **kwargs):
         ret_units = delta_degC if u == delta_degC else u
     else:
         ret_units = u
-    return func._implementation(np.asarray(arr), *args, **kwargs) * ret_units
+    ret = func._implementation(np.asarray(arr), *args, **kwargs) * ret_units
+    _label_out(kwargs, ret_units)
+    return ret
 
 
 @implements(np.diff)
